@@ -255,6 +255,11 @@ def fixed_corpus():
     # case-insensitive
     out.append(Def([L('token', 'élan', ignore_case=True), L('regex', '[a-z]+k', ignore_case=True), L('token', 'ǆ', ignore_case=True),
                     L('skip', ' ')], origin='fixed:icase'))
+    # alternations whose branches differ in the first byte and continue identically: state de-duplication merges the
+    # edges (ByteClass::merge), with extreme bytes 0x00 / 0xff / 0x7f / 0x80 in the merged classes
+    out.append(Def([L('regex', '(?-u)\\x1b[\\x40-\\x7e]|\\xff[\\x40-\\x7e]'), L('regex', '(?-u)(?:\\x00a|\\xffa|ma)+z'),
+                    L('regex', '(?-u)(?:\\x7fq|\\x80q|\\xfeq)[0-9]'), L('regex', '[a-l]+')], utf8=False, origin='fixed:merge-bytes'))
+    out.append(Def([L('regex', '(?:é|ü|a)x+'), L('regex', '(?:if|of|af)[0-9]'), L('regex', '(?:中|丿|b)(?:y|z)'), L('skip', ' ')], origin='fixed:merge-str'))
     # stack probes: single-character skips, long tokens
     out.append(Def([L('skip', 'x'), L('regex', 'a+'), L('token', 'b'), L('regex', 'c[a-z]*d')], origin='fixed:stack'))
     # nested repetitions (exponential for backtrackers)
